@@ -49,7 +49,7 @@ def binding_selftest(run, events):
     t3 = copy.deepcopy(base)
     seen = {}
     for e in t3:
-        if e['op'] in ('OptCall', 'Construct', 'Reload'):
+        if e['op'] in ('OptCall', 'Construct', 'Reload', 'SetPose', 'SetMeas'):
             seen = {k: v for k, v in seen.items() if k[0] != e['sid']}
         if e['op'] == 'Query':
             k = (e['sid'], e['q'], e['target'])
